@@ -243,7 +243,8 @@ fn decode_ops(item: &str, frame: &[u8], pattern: &[usize], expect_len: usize) {
     report(item, "take(all)+read_to_end", catch_unwind(AssertUnwindSafe(|| {
         let limit = frame.len() as u64 + 5;
         let mut sd = StreamingDecoder::new(Frag { data: frame, pos: 0, pattern, calls: 0 }.take(limit)).map_err(|e| class(&format!("{e:?}")))?;
-        let mut out = vec![];
+        // read_to_end APPENDS: the destination already holds something (the digest covers it)
+        let mut out = vec![0xAB, 0xCD, 0xEF];
         match sd.read_to_end(&mut out).map(|_| ()) {
             Ok(()) => Ok(format!("data={:016x} len={}", fnv(&out), out.len())),
             Err(_) => Err("read_to_end-error".to_string()),
